@@ -16,7 +16,7 @@ import (
 // all give the same words.
 func c10R9(h H) {
 	r := h.r
-	r.Rule("R9", "the lexer as a decision table (E10): allTokens, evaluated rune by rune on texts with blanks, tabs, CRLF, blank lines, comments (own line, trailing, `#` directly after a word, `#` inside quotes), a byte order mark, quoted tokens holding blanks, line breaks, `#`, braces, \\\" and other backslashes, an unterminated quote and an empty quoted token, yields exactly the written words in order, each with the line it begins on", 1)
+	r.Rule("R9", "the lexer as a decision table (E10): allTokens, evaluated rune by rune on texts with blanks, tabs, CRLF, blank lines, comments (own line, trailing, `#` directly after a word, `#` inside quotes), a byte order mark, quoted tokens holding blanks, line breaks, `#`, braces, \\\" and other backslashes, an unterminated quote, an empty quoted token and an empty text, yields exactly the written words in order, each with the line it begins on", 1)
 	fn := h.fn("R9", cfPkg, "allTokens")
 	if fn == nil {
 		return
@@ -58,6 +58,7 @@ func c10R9(h H) {
 		{"unterminated quote runs to the end", "a \"b c\nd", w("a", 1, "b c\nd", 1)},
 		{"non-ASCII words", "höst { \"ü ß\" }", w("höst", 1, "{", 1, "ü ß", 1, "}", 1)},
 		{"only blanks and comments", " \n# nothing\n\t\n", nil},
+		{"empty text (an empty file among imported ones)", "", nil},
 		{"word at the very end without line break", "a b", w("a", 1, "b", 1)},
 	}
 	if theTier == "thorough" {
